@@ -39,6 +39,30 @@ func fmtInputs(cfg *vh.Config, label string, nGen, nCorpus, nSeq int) []fmtInput
 	for _, t := range fmtTemplates {
 		out = append(out, fmtInput{t, "template", true})
 	}
+	// deep nesting: the description re-flow width is 80 - 4*depth, so it shrinks to 0 and below; words longer
+	// than the width, pending words before them, header descriptions followed by description lines, at every depth
+	deepWords := []string{"a", "bb ccc", strings.Repeat("L", 30), "x " + strings.Repeat("M", 70) + " y", "p q r s t u v w x y z aa bb cc dd ee ff gg hh ii jj kk"}
+	nDeep := 0
+	for _, d := range []int{1, 4, 9, 15, 19, 20, 21, 26} {
+		for wi, w := range deepWords {
+			if cfg.Tier != "thorough" && (d*7+wi)%3 != int(cfg.Seed%3) {
+				continue // a third of the family per quick run, chosen by the seed
+			}
+			var sb strings.Builder
+			for k := 0; k < d; k++ {
+				sb.WriteString(strings.Repeat(" ", k) + "b" + fmt.Sprint(k) + " {\n")
+			}
+			ind := strings.Repeat("\t", d)
+			sb.WriteString(ind + "| " + w + "\n" + ind + "| " + w + " tail\n" + ind + "|\n" + ind + "| second " + w + "\n")
+			sb.WriteString(ind + "h tag | " + w + "\n" + ind + "| " + w + "\n")
+			sb.WriteString(ind + "k = \"" + w + "\" // " + w + "\n")
+			for k := d; k > 0; k-- {
+				sb.WriteString(strings.Repeat(" ", k-1) + "}\n")
+			}
+			out = append(out, fmtInput{sb.String(), "deep", nDeep < 12 || cfg.Tier == "thorough"})
+			nDeep++
+		}
+	}
 	corpus := loadCorpus()
 	for i, f := range corpus {
 		out = append(out, fmtInput{f, "file", cfg.Tier == "thorough" || i < 3})
